@@ -196,9 +196,27 @@ fn stallers(ctx: &mut Ctx) {
                         // header announcing more bytes than ever come: then the peer is a silent
                         // staller. Either is legitimate.
                         o2.borrow_mut().possible_failures += 1;
-                        let _ = s.send(&[0x13, 0x37, 0xff, 0x00, 0x42, 0x99, 0x01, 0x02, 0x03, 0x04, 0x05, 0x06, 0x07, 0x08, 0x09, 0x0a, 0x0b]).await;
-                        // enough bytes to complete (and fail) any pending item
-                        let _ = s.send(&[0xEE; 80]).await;
+                        // (not for REQ: an admitted odd peer would be handed the probe request and never answer)
+                        let odd = if *o == 64 && kind != Kind::Req { (idx / 7) % 4 } else { 0 };
+                        if odd != 0 {
+                            // right after a valid greeting: a READY that is framed correctly but
+                            // unusual (a property given twice, three times). Whether such a peer
+                            // is admitted is not this property's business; that everybody else is
+                            // still served is
+                            let pt = peer_type.as_bytes();
+                            let r = match odd {
+                                1 => rc::ready(&[(b"Socket-Type", pt), (b"Socket-Type", pt)]),
+                                2 => rc::ready(&[(b"Socket-Type", pt), (b"Identity", b"odd"), (b"Identity", b"odd")]),
+                                _ => rc::ready(&[(b"X-a", b"1"), (b"X-a", b"2"), (b"X-a", b"3"), (b"Socket-Type", pt)]),
+                            };
+                            let _ = s.send(&r).await;
+                            o2.borrow_mut().possible_admits += 1;
+                            rt::count("probe_staller_sent_a_ready_with_a_repeated_property");
+                        } else {
+                            let _ = s.send(&[0x13, 0x37, 0xff, 0x00, 0x42, 0x99, 0x01, 0x02, 0x03, 0x04, 0x05, 0x06, 0x07, 0x08, 0x09, 0x0a, 0x0b]).await;
+                            // enough bytes to complete (and fail) any pending item
+                            let _ = s.send(&[0xEE; 80]).await;
+                        }
                     }
                     keep.push(s);
                 }
